@@ -715,30 +715,28 @@ impl FdlActiveStation {
             current_address + 1
         };
 
-        if next_address == self.p.address
-            || (current_address == next_station && next_station != self.p.address)
-        {
-            // We have either wrapped around to ourselves or the address we polled last turned
-            // out to be our new successor, so the end of the GAP has been reached.
-            return GapState::Waiting { rotation_count: 0 };
-        }
-
-        if next_address >= next_station && next_station > self.p.address {
-            // We have reached the end of the GAP, enter waiting state.
-            GapState::Waiting { rotation_count: 0 }
-        } else if next_address == next_station && next_station == self.p.address {
-            // We have reached the end of the GAP, enter waiting state (NS==TS case).
-            GapState::Waiting { rotation_count: 0 }
-        } else if next_address >= next_station
-            && next_station < self.p.address
-            && next_address < self.p.address
-        {
-            // We have reached the end of the GAP, enter waiting state (wrap-around GAP case).
-            GapState::Waiting { rotation_count: 0 }
+        // The GAP are the addresses strictly between TS and NS (cyclically, below HSA).  NS may
+        // have changed since the sweep was started (discovered by the poll itself, removed, or
+        // learnt from witnessed token passes), so check the next address against the GAP as it is
+        // now instead of only looking for the moment where NS is passed.
+        let this_station = self.p.address;
+        let in_gap = if next_station > this_station {
+            next_address > this_station && next_address < next_station
+        } else if next_station < this_station {
+            // wrap-around GAP
+            next_address > this_station || next_address < next_station
         } else {
+            // NS==TS: we are alone, everything but ourselves is GAP
+            next_address != this_station
+        };
+
+        if in_gap {
             GapState::DoPoll {
                 current_address: next_address,
             }
+        } else {
+            // We have reached the end of the GAP, enter waiting state.
+            GapState::Waiting { rotation_count: 0 }
         }
     }
 
